@@ -181,6 +181,8 @@ type c09Tunnel struct {
 	CLen     int           `json:"client_bytes"`
 	ULen     int           `json:"upstream_bytes"`
 	UEarly   int           `json:"upstream_bytes_before_client_eof,omitempty"`
+	CEarly   int           `json:"client_bytes_before_upstream_eof,omitempty"`
+	Through  bool          `json:"other_side_keeps_sending_without_waiting_for_eof,omitempty"`
 	Order    string        `json:"close_order"`
 	Fault    string        `json:"fault,omitempty"`
 	CStalls  int           `json:"client_reader_stalls,omitempty"`
@@ -204,7 +206,8 @@ type c09Scenario struct {
 	Table        string        `json:"table"`
 }
 
-var c09Orders = []string{"client-first", "upstream-first", "simultaneous", "halfclose", "client-abrupt", "upstream-abrupt"}
+// "halfclose" is the client half-closing first, "upstream-halfclose" its mirror.
+var c09Orders = []string{"client-first", "upstream-first", "simultaneous", "halfclose", "client-abrupt", "upstream-abrupt", "upstream-halfclose"}
 var c09Modes = []string{"tcp", "sni", "dynamic"}
 var c09Timeouts = []time.Duration{0, 30 * time.Second, 5 * time.Minute}
 
@@ -287,8 +290,18 @@ func c09Gen(g *simcore.Tape, thorough bool) *c09Scenario {
 		if sc.Mode == "sni" {
 			t.Hello = simcore.Pick(g, []string{"default", "x25519-only", "tls12", "alpn-6k"})
 		}
+		// half-close orders: one side sends its whole stream and half-closes, the other side has sent a
+		// PRNG part of its stream by then and sends the rest (at least one byte) afterwards - either
+		// after it has seen the end of the incoming stream (a reply) or without waiting for it (the
+		// schedule decides where the half-close lands among its writes) - and then closes
 		if t.Order == "halfclose" && t.ULen > 0 {
-			t.UEarly = g.Intn(t.ULen) // the rest is the reply sent after the client's EOF
+			t.UEarly = g.Intn(t.ULen)
+		}
+		if t.Order == "upstream-halfclose" && t.CLen > 0 {
+			t.CEarly = g.Intn(t.CLen)
+		}
+		if t.Order == "halfclose" || t.Order == "upstream-halfclose" {
+			t.Through = g.Chance(40)
 		}
 		if g.Chance(12) {
 			t.Fault = simcore.Pick(g, []string{"reset-client", "reset-upstream"})
@@ -332,16 +345,29 @@ func c09Build(g *simcore.Tape, sc *c09Scenario) {
 		if t.Pxy {
 			t.hdr = []byte(c09ProxyLine(c09Addr(t.Client), c09Addr(t.Listen)))
 		}
-		cw := c09Writes(simpeer.Chunks(g, len(t.c), 24))
-		var uw, ureply []simpeer.Act
-		if t.Order == "halfclose" {
-			uw = c09Writes(simpeer.Chunks(g, t.UEarly, 12))
-			ureply = c09Writes(simpeer.Chunks(g, t.ULen-t.UEarly, 12))
-		} else {
+		act := func(k string, n int) simpeer.Act { return simpeer.Act{Kind: k, N: n} }
+		// the writing phase of a side that sends a first part, then (unless Through) waits for the end of
+		// the incoming stream, then sends the rest
+		twoParts := func(total, first int) []simpeer.Act {
+			a := c09Writes(simpeer.Chunks(g, first, 12))
+			if !t.Through {
+				a = append(a, act(simpeer.AwaitEOF, 0))
+			}
+			return append(a, c09Writes(simpeer.Chunks(g, total-first, 12))...)
+		}
+		var cw, uw []simpeer.Act
+		switch t.Order {
+		case "halfclose":
+			cw = c09Writes(simpeer.Chunks(g, len(t.c), 24))
+			uw = twoParts(t.ULen, t.UEarly)
+		case "upstream-halfclose":
+			cw = twoParts(len(t.c), len(hello)+t.CEarly) // the hello is what makes fabio dial at all
+			uw = c09Writes(simpeer.Chunks(g, t.ULen, 24))
+		default:
+			cw = c09Writes(simpeer.Chunks(g, len(t.c), 24))
 			uw = c09Writes(simpeer.Chunks(g, t.ULen, 24))
 		}
 		toUp := len(t.hdr) + len(t.c)
-		act := func(k string, n int) simpeer.Act { return simpeer.Act{Kind: k, N: n} }
 		ca := append([]simpeer.Act{act(simpeer.Dial, 0)}, cw...)
 		ua := uw
 		switch t.Order {
@@ -355,10 +381,12 @@ func c09Build(g *simcore.Tape, sc *c09Scenario) {
 			ca = append(ca, act(simpeer.Await, t.ULen), act(simpeer.Close, 0))
 			ua = append(ua, act(simpeer.Await, toUp), act(simpeer.Close, 0))
 		case "halfclose":
+			// both sides close only after they have seen the end of the other side's stream
 			ca = append(ca, act(simpeer.CloseWrite, 0), act(simpeer.AwaitEOF, 0), act(simpeer.Close, 0))
-			ua = append(ua, act(simpeer.AwaitEOF, 0))
-			ua = append(ua, ureply...)
-			ua = append(ua, act(simpeer.Close, 0))
+			ua = append(ua, act(simpeer.AwaitEOF, 0), act(simpeer.Close, 0))
+		case "upstream-halfclose":
+			ua = append(ua, act(simpeer.CloseWrite, 0), act(simpeer.AwaitEOF, 0), act(simpeer.Close, 0))
+			ca = append(ca, act(simpeer.AwaitEOF, 0), act(simpeer.Close, 0))
 		case "client-abrupt":
 			ca = append(ca, act(simpeer.Close, 0))
 			ua = append(ua, act(simpeer.AwaitEOF, 0), act(simpeer.Close, 0))
@@ -387,8 +415,12 @@ func c09Build(g *simcore.Tape, sc *c09Scenario) {
 //
 //   - client-first / upstream-first / simultaneous: the closing side closes after it has received
 //     everything the other side sends (it may still have its own tail in flight) - both complete.
-//   - halfclose: the client half-closes after sending, the upstream answers after it saw the end -
-//     both complete ("still receives the reply").
+//   - halfclose: the client half-closes after sending, the upstream sends the rest of its stream
+//     (after it saw the end, or without waiting for it) - both complete ("still receives the reply").
+//   - upstream-halfclose: the mirror. The upstream finishes first ("has had all of its data
+//     delivered"), the tunnel is still up and the client goes on sending: "every byte one side sends
+//     is delivered" - both complete. What the client never got to send because it waits for an end of
+//     stream that was not passed on is not demanded (see c09Check).
 //   - *-abrupt: one side closes right after its last write while the other may still be sending. The
 //     statement speaks about the finishing side's own bytes only, and a full close with data still
 //     arriving may be answered with a reset that destroys data in flight in either direction (TCP,
@@ -472,6 +504,15 @@ func c09Check(r *simcore.Run, sc *c09Scenario, t *c09Tunnel, finished bool) {
 		r.Fail("dial", "more-than-one-upstream-connection"+path, "%s: the upstream received %d connections for one client connection", what, n+1)
 	}
 	upFull, clFull := c09Need(sc.Mode, t)
+	if t.Order == "upstream-halfclose" && !t.Through && len(wantUp) > len(t.hdr)+t.HelloLen+t.CEarly {
+		if ended, _ := t.cl.ReadEnd(); !ended {
+			// the client sends the rest of its stream once it has seen the end of the upstream's stream
+			// and never saw it: that a close is passed on is demanded only of the client's half-close,
+			// so only what the client did send is demanded here
+			wantUp = wantUp[:len(t.hdr)+t.HelloLen+t.CEarly]
+			r.Probe("upstream_eof_not_propagated")
+		}
+	}
 	kUp, atUp := simpeer.Diff(wantUp, gotUp)
 	kCl, atCl := simpeer.Diff(t.u, gotCl)
 	if t.Fault != "" {
@@ -509,6 +550,12 @@ func c09Check(r *simcore.Run, sc *c09Scenario, t *c09Tunnel, finished bool) {
 		}
 		return
 	}
+	// upstream half-close: what the client sends afterwards must arrive
+	if t.Order == "upstream-halfclose" && kCl == "" && kUp == "truncated" {
+		_, cwrote := t.cl.Progress()
+		r.Fail("halfclose", "client-stream-cut-after-upstream-finished"+path, "%s: the upstream sent its %d bytes, half-closed and kept reading; all of its bytes reached the client, which had %d more bytes to send (it could write %d of its %d, write error: %v), but the upstream received only %d of the client's %d bytes", what, len(t.u), len(t.c)-t.HelloLen-t.CEarly, cwrote, len(t.c), t.cl.WriteErr(), max(len(gotUp)-len(t.hdr), 0), len(t.c))
+		return
+	}
 	fail := func(dir, kind string, at, got, want int) {
 		r.Fail("stream", dir+"/"+kind+path, "%s: %s stream differs from what was sent at offset %d: %s (received %d bytes, sent %d)", what, dir, at, kind, got, want)
 	}
@@ -527,6 +574,9 @@ func c09Check(r *simcore.Run, sc *c09Scenario, t *c09Tunnel, finished bool) {
 			r.Probe("complete_but_close_not_propagated")
 		}
 		r.Probe("order_" + t.Order)
+		if t.Through {
+			r.Probe("order_" + t.Order + "_without_waiting")
+		}
 		if t.HelloLen > 4096 {
 			r.Probe("hello_above_4k")
 		}
